@@ -5,6 +5,7 @@ mod cli;
 mod dfs;
 mod flags;
 mod hball;
+mod llp;
 mod probe;
 mod split;
 mod scc;
@@ -58,6 +59,7 @@ fn main() {
         "flags" => flags::run(seed, count, &mut out),
         "dfs" => dfs::run(seed, count, maxn, &mode, &mut out),
         "hball" => hball::run(seed, count, maxn, &mode, &mut out),
+        "llp" => llp::run(seed, count, maxn, &mode, &args, &mut out),
         "probe" => probe::run(&mode),
         "cli" => cli::run(seed, count, maxn, &mut out),
         "visit" => visit::run(seed, count, maxn, &mode, &mut out),
